@@ -272,6 +272,15 @@ func (nx *nilExp) domain(t types.Type) []domEntry {
 			a.T = "int"
 			a.E = []Val{intV(1)}
 			out = append(out, domEntry{V: a, Go: ts + "(1)"})
+			pi := types.NewPointer(types.Typ[types.Int])
+			nx.ex.addRTWithMethods(pi)
+			b := mk("iface")
+			b.T = typeTag(pi)
+			b.E = []Val{ptrV(0)}
+			c := mk("iface")
+			c.T = typeTag(pi)
+			c.E = []Val{ptrV(1)}
+			out = append(out, domEntry{V: b, Go: ts + "((*int)(nil))"}, domEntry{V: c, Cells: []Val{intV(0)}, Go: ts + "(new(int))"})
 		}
 		return out
 	}
@@ -401,26 +410,7 @@ func cmdNilExport(args []string) {
 	var runs []NilRun
 	var drv strings.Builder
 	drv.WriteString("//go:build drv\n\npackage main\n\nimport \"reflect\"\n\n")
-	for _, pk := range pkgs[1:] {
-		used := false
-		for _, g := range globals {
-			if strings.HasPrefix(g.name, pk.Pkg.Name()+".") {
-				used = true
-			}
-		}
-		for _, f := range futs {
-			for _, q := range f.params {
-				for _, e := range q.dom {
-					if strings.Contains(e.Go, pk.Pkg.Name()+".") {
-						used = true
-					}
-				}
-			}
-		}
-		if used {
-			fmt.Fprintf(&drv, "import %s %q\n", pk.Pkg.Name(), pk.Pkg.Path())
-		}
-	}
+	drv.WriteString("//LIBIMPORTS\n")
 	drv.WriteString(`
 func pP(isNil bool) {
 	if isNil {
@@ -449,7 +439,14 @@ func pV() { print(" 0:2") }
 `)
 	var mainBody strings.Builder
 	for _, f := range futs {
-		all := append(append([]nilParam{}, f.params...), globals...)
+		// only the package-level variables the function can reach matter for its behaviour
+		reach := ex.reachableGlobals(f.fn)
+		all := append([]nilParam{}, f.params...)
+		for _, gq := range globals {
+			if reach == nil || reach[gq.gidx] {
+				all = append(all, gq)
+			}
+		}
 		total := 1
 		for _, q := range all {
 			total *= len(q.dom)
@@ -513,7 +510,15 @@ func pV() { print(" 0:2") }
 		}
 	}
 	drv.WriteString("func main() {\n" + mainBody.String() + "}\n")
-	if err := os.WriteFile(filepath.Join(*dir, "main_native.go"), []byte(drv.String()), 0o644); err != nil {
+	text := drv.String()
+	imports := ""
+	for _, pk := range pkgs[1:] {
+		if strings.Contains(text, pk.Pkg.Name()+".") {
+			imports += fmt.Sprintf("import %s %q\n", pk.Pkg.Name(), pk.Pkg.Path())
+		}
+	}
+	text = strings.Replace(text, "//LIBIMPORTS\n", imports, 1)
+	if err := os.WriteFile(filepath.Join(*dir, "main_native.go"), []byte(text), 0o644); err != nil {
 		die("%v", err)
 	}
 	if runs == nil {
@@ -527,4 +532,40 @@ func pV() { print(" 0:2") }
 	if err := os.WriteFile(*out, b, 0o644); err != nil {
 		die("%v", err)
 	}
+}
+
+// reachableGlobals returns the heap indices of the package-level variables referenced by f or by a function
+// statically reachable from it; nil means "unknown" (dynamic dispatch).
+func (ex *exporter) reachableGlobals(f *ir.Function) map[int]bool {
+	out := map[int]bool{}
+	seen := map[*ir.Function]bool{}
+	todo := []*ir.Function{f}
+	for len(todo) > 0 {
+		fn := todo[len(todo)-1]
+		todo = todo[:len(todo)-1]
+		if seen[fn] {
+			continue
+		}
+		seen[fn] = true
+		todo = append(todo, fn.AnonFuncs...)
+		for _, b := range fn.Blocks {
+			for _, ins := range b.Instrs {
+				if c, ok := ins.(ir.CallInstruction); ok && c.Common().IsInvoke() {
+					return nil
+				}
+				var rands [16]*ir.Value
+				for _, op := range ins.Operands(rands[:0]) {
+					switch v := (*op).(type) {
+					case *ir.Function:
+						todo = append(todo, v)
+					case *ir.Global:
+						if i, ok := ex.globIdx[v]; ok {
+							out[i] = true
+						}
+					}
+				}
+			}
+		}
+	}
+	return out
 }
